@@ -155,7 +155,7 @@ pub fn run(run: &mut Run) {
     let impls = all_impls();
     run.extra("implementations", impls.len());
     let tier = run.tier;
-    let n = if cfg!(miri) { 2 } else { tier.n(700, 30_000) };
+    let n = if cfg!(miri) { 2 } else { tier.n(12_000, 500_000) };
     let impls2 = impls.clone();
     run.sub("matrices", n, move |l, idx, rng| {
         let m = if idx % 16 == 0 { genm::decoder_matrix(rng, 10, 24) } else { genm::decoder_matrix(rng, 6, 12) };
